@@ -76,6 +76,12 @@ CHECKS = {
    note="Trusted: the ~150-line reference (Python list + uniqueness rule) and the coherence predicate, both public-API only. Bounds: lists <= 4 (exhaustive) / <= 34 (random), sequences <= 2 (quick) / 3 (thorough) exhaustive, <= 40 random.",
    technique="runtime reference-model monitor + icontract class invariant on the real DictList",
    ref="DESIGN.md §4 C15"),
+ "C20": dict(
+   level="exploration",
+   text="Oracle monitor: uptake/secretion and producing/consuming frames are recomputed from the Solution and the model's content (every boundary reaction / reaction of the metabolite exactly once, side by sign of flux x coefficient, tolerance rule, FVA ranges x coefficient with min/max swap for negative coefficients, percentages, balance of totals, objective value) for given (FBA, pFBA, loopful) and defaulted (captured) solutions, fva none/float/frame; every model, metabolite and reaction summary is rendered as text, HTML, frame, str, _repr_html_ with names on/off and a threshold.",
+   note="Trusted: ~60 lines recomputing the documented scaling. Generated models incl. non-unit/negative boundary coefficients, import-written exchanges, zero-flux reactions.",
+   technique="runtime oracle monitor (recomputation from the Solution) + rendering workload",
+   ref="DESIGN.md §4 C20"),
 }
 NOT_APPLICABLE = [
 ]
